@@ -45,6 +45,9 @@ type gen struct {
 	s    *hx.Sess
 	u    *hx.Universe
 	hist int
+	// noSMove: set histories without SMove (whose known deviation F-C06-2
+	// makes memory and log disagree, which Merge then turns into data loss)
+	noSMove bool
 }
 
 func pick(r *rand.Rand, xs []string) string { return xs[r.Intn(len(xs))] }
@@ -235,6 +238,107 @@ func (g *gen) histKV() {
 }
 
 
+// histFill: C09 - entries sized so that a segment is filled to exactly g
+// bytes before its end (g = 0: exactly full; g < one header: nothing fits),
+// with and without empty values; reads of never-written buckets; reopen.
+func (g *gen) histFill() {
+	mode := modeOf(g.c.Mode, g.r)
+	rw := rwOf(g.c.RW, g.r)
+	seg := int64(200 + g.r.Intn(3)*57)
+	dir := fmt.Sprintf("%s/db-%d", g.c.Tmp, g.hist)
+	os.RemoveAll(dir)
+	g.u = &hx.Universe{KvBuckets: []string{"b1", "nob"}}
+	g.newSess(dir, mode, rw, seg)
+	g.s.Opt.StartFileLoadingMode = nutsdb.RWMode(g.hist % 2)
+	g.s.R.Emit(hx.Ev{"op": "reset", "mode": int(mode), "rw": int(rw), "seg": seg, "hist": g.hist,
+		"sync": g.s.Opt.SyncEnable, "load": int(g.s.Opt.StartFileLoadingMode), "family": "fill"})
+	if err := g.s.OpenFirst(); err != nil {
+		fmt.Fprintln(os.Stderr, "harness: first open failed:", err)
+		os.Exit(2)
+	}
+	const hdr = 42
+	used := int64(0) // bytes used in the active segment, as the driver computes it
+	gaps := []int64{0, 0, 1, 2, 41, 42, 43, 44, 45, 46, 47}
+	put := func(k string, vlen int64) {
+		v := make([]byte, vlen)
+		for i := range v {
+			v[i] = byte('a' + (i+len(k))%26)
+		}
+		g.update(func(t *hx.Tx) { t.Put("b1", []byte(k), v, 0) })
+		sz := hdr + 2 + int64(len(k)) + vlen
+		if used+sz > seg {
+			used = 0
+		}
+		used += sz
+	}
+	for i := 0; i < g.c.Steps; i++ {
+		gap := gaps[g.r.Intn(len(gaps))]
+		// fill the active segment up to exactly seg-gap
+		for {
+			k := pick(g.r, kvKeys)
+			base := hdr + 2 + int64(len(k))
+			room := seg - gap - used
+			if room < base {
+				if room == 0 {
+					break
+				}
+				// cannot hit the target in this segment: one small entry rotates
+				put(k, 0)
+				continue
+			}
+			vlen := int64(g.r.Intn(30))
+			if g.r.Intn(3) == 0 {
+				vlen = 0
+			}
+			if base+vlen > room || room-(base+vlen) < hdr+3 {
+				vlen = room - base // end exactly at the target (possibly an empty value)
+			}
+			put(k, vlen)
+			if used == seg-gap {
+				break
+			}
+		}
+		// the next entry: empty value, or one that needs more than the gap
+		k := pick(g.r, kvKeys)
+		if g.r.Intn(2) == 0 {
+			put(k, 0)
+		} else {
+			put(k, int64(g.r.Intn(20)))
+		}
+		g.view(func(t *hx.Tx) {
+			g.kvReads(t, "b1", g.r.Intn(3) == 0)
+			if g.r.Intn(2) == 0 {
+				g.kvReads(t, "nob", false) // a bucket nobody ever wrote
+			}
+		})
+		if g.r.Intn(3) == 0 {
+			g.s.Shadow(dir + "-shadow")
+		}
+		if g.r.Intn(4) == 0 {
+			g.s.Close()
+			if g.s.Open() != nil {
+				return
+			}
+			g.s.Obs()
+			used = -1 << 40 // unknown after reopen: the next put re-synchronises at a rotation
+			// after a reopen the driver no longer knows the fill level; start a new segment
+			big := seg - hdr - 2 - 1 - 1
+			g.update(func(t *hx.Tx) { t.Put("b1", []byte("c"), make([]byte, big), 0) })
+			g.update(func(t *hx.Tx) { t.Put("b1", []byte("c"), []byte("v"), 0) })
+			used = hdr + 2 + 1 + 1
+		}
+	}
+	g.s.Obs()
+	g.s.Close()
+	if g.s.Open() != nil {
+		return
+	}
+	g.s.Obs()
+	g.view(func(t *hx.Tx) { g.kvReads(t, "b1", true) })
+	g.s.Close()
+	os.RemoveAll(dir)
+}
+
 // ---------------------------------------------------------------- data structures
 
 func (g *gen) idx(n int) int { return g.r.Intn(2*n+4) - n - 2 } // -n-2 .. n+1
@@ -311,7 +415,11 @@ func (g *gen) stMut(t *hx.Tx) {
 		}
 		return vs
 	}
-	switch g.r.Intn(10) {
+	c := g.r.Intn(10)
+	if g.noSMove && c >= 7 {
+		c = g.r.Intn(7)
+	}
+	switch c {
 	case 0, 1, 2, 3:
 		t.SAdd(b, k, items()...)
 	case 4, 5:
@@ -672,11 +780,25 @@ func (g *gen) histMixed(o mixOpts) {
 		}
 		if g.r.Intn(100) < o.pMerge {
 			g.s.Obs()
-			g.s.Merge()
-			g.s.Obs()
-			g.s.Shadow(dir + "-shadow")
-			if g.s.Panics > 0 {
-				return
+			nm := 1 + g.r.Intn(2) // possibly twice in a row
+			for m := 0; m < nm; m++ {
+				if o.faults && g.r.Intn(3) == 0 {
+					// fail the k-th file mutation inside Merge
+					k, cnt := g.r.Intn(12), 0
+					partial := -1
+					if g.r.Intn(2) == 0 {
+						partial = 1 + g.r.Intn(60)
+					}
+					obs.Fault = func(m *hx.Mut) (bool, int) {
+						cnt++
+						return cnt-1 == k, partial
+					}
+				}
+				g.s.MergeObs(dir + "-shadow")
+				obs.Fault = nil
+				if g.s.Panics > 0 {
+					return
+				}
 			}
 		}
 		if g.r.Intn(12) == 0 {
@@ -722,11 +844,27 @@ func main() {
 		os.Exit(2)
 	}
 	g := &gen{c: c, r: rand.New(rand.NewSource(c.Seed)), s: &hx.Sess{R: rec}}
+	writeSummary := func() {
+		if c.Summary != "" {
+			b, _ := json.Marshal(map[string]interface{}{"events": rec.N, "by_op": rec.Cnt, "histories": c.Hist, "panics": g.s.Panics})
+			os.WriteFile(c.Summary, b, 0644)
+		}
+	}
+	g.s.OnHang = writeSummary
+	if hs := os.Getenv("VERIF_HANG_SECONDS"); hs != "" {
+		var n int
+		fmt.Sscan(hs, &n)
+		if n > 0 {
+			hx.HangAfter = time.Duration(n) * time.Second
+		}
+	}
 	for h := 0; h < c.Hist; h++ {
 		g.hist = h
 		switch c.Family {
 		case "kv":
 			g.histKV()
+		case "fill":
+			g.histFill()
 		case "list", "set", "zset":
 			g.histDS(c.Family)
 		case "mixed": // C08: every structure, multi-operation transactions, reopen
@@ -741,8 +879,11 @@ func main() {
 			g.histMixed(mixOpts{kinds: []string{"kv"}, pMulti: 60, pNoCommit: 45, pROMut: 60, faults: true})
 		case "merge": // C15
 			g.histMixed(mixOpts{kinds: []string{"kv", "list", "set", "zset"}, pMulti: 40, pNoCommit: 10, pMerge: 12})
+		case "mergeds": // C15 without lists and without SMove
+			g.noSMove = true
+			g.histMixed(mixOpts{kinds: []string{"kv", "set", "zset"}, pMulti: 40, pNoCommit: 10, pMerge: 12, faults: true})
 		case "mergekv":
-			g.histMixed(mixOpts{kinds: []string{"kv"}, pMulti: 40, pNoCommit: 10, pMerge: 12})
+			g.histMixed(mixOpts{kinds: []string{"kv"}, pMulti: 40, pNoCommit: 15, pMerge: 15, faults: true})
 		default:
 			fmt.Fprintln(os.Stderr, "harness: unknown family", c.Family)
 			os.Exit(2)
@@ -752,8 +893,5 @@ func main() {
 		fmt.Fprintln(os.Stderr, "harness:", err)
 		os.Exit(2)
 	}
-	if c.Summary != "" {
-		b, _ := json.Marshal(map[string]interface{}{"events": rec.N, "by_op": rec.Cnt, "histories": c.Hist, "panics": g.s.Panics})
-		os.WriteFile(c.Summary, b, 0644)
-	}
+	writeSummary()
 }
